@@ -702,3 +702,145 @@ func (a genAtom) describe() string {
 func TestC01GenAtoms(t *testing.T) {
 	ev.Run(t, "C01", genC01Atoms, decideC01Atoms)
 }
+
+// ---------------------------------------------------------------- several atoms over one property
+
+// Same-property combinations: two or three per-value atoms over ONE property, joined by or / and, on nodes holding
+// zero to three values. Each atom quantifies over the values on its own ("all values are validated"): the node
+// satisfies `or` when some atom holds for all its values, which is not the same as every value satisfying some atom.
+type spCase struct {
+	Family      string    `json:"family"` // "string" | "number"
+	Op          string    `json:"op"`     // "or" | "and"
+	Atoms       []genAtom `json:"atoms"`
+	Vals        [][]m.Lit `json:"vals"` // node -> values of ex.p0
+	Route       int       `json:"route,omitempty"`
+	ProfileText string    `json:"profile_text"`
+	DataText    string    `json:"data_text"`
+}
+
+func genC01SameProp(t *rapid.T) spCase {
+	c := spCase{Family: rapid.SampledFrom([]string{"string", "string", "number"}).Draw(t, "family"), Op: rapid.SampledFrom([]string{"or", "or", "and"}).Draw(t, "op")}
+	nodes := rapid.IntRange(4, 9).Draw(t, "nodes")
+	k := rapid.IntRange(2, 3).Draw(t, "atoms")
+	var pool []m.Lit
+	for len(c.Atoms) < k {
+		a, vals, _ := genAtomAndValues(t, nodes)
+		stringKind := a.Kind == "pattern" || strings.HasSuffix(a.Kind, "Length")
+		numberKind := strings.HasSuffix(a.Kind, "clusive")
+		if (c.Family == "string" && !stringKind) || (c.Family == "number" && !numberKind) {
+			continue
+		}
+		c.Atoms = append(c.Atoms, a)
+		for _, vs := range vals {
+			pool = append(pool, vs...)
+		}
+	}
+	if len(pool) == 0 {
+		pool = []m.Lit{m.S("a")}
+		if c.Family == "number" {
+			pool = []m.Lit{m.I(1)}
+		}
+	}
+	c.Vals = make([][]m.Lit, nodes)
+	for n := range c.Vals {
+		for j := rapid.SampledFrom([]int{0, 1, 2, 2, 3}).Draw(t, "nvals"); j > 0; j-- {
+			l := pool[rapid.IntRange(0, len(pool)-1).Draw(t, "val")]
+			dup := false
+			for _, x := range c.Vals[n] {
+				if x.Key() == l.Key() {
+					dup = true
+				}
+			}
+			if !dup {
+				c.Vals[n] = append(c.Vals[n], l)
+			}
+		}
+	}
+	c.Route = rapid.SampledFrom([]int{0, 0, 1, 2, 3}).Draw(t, "route")
+	// profile: the plain spelling and one with every operand wrapped in a one-member `and`
+	doc := m.YMap()
+	doc.Set("profile", m.YStr("same property"))
+	doc.Set("prefixes", m.YMap().Set("ex", m.YStr(m.NS)))
+	doc.Set("violation", m.YSeq(m.YStr("plain"), m.YStr("wrapped")))
+	plain, wrapped := m.YSeq(), m.YSeq()
+	for _, a := range c.Atoms {
+		op := m.YMap().Set("propertyConstraints", m.YMap().Set("ex.p0", m.YMap().Set(a.Kind, a.argY())))
+		plain.Items = append(plain.Items, op)
+		wrapped.Items = append(wrapped.Items, m.YMap().Set("and", m.YSeq(op.Clone())))
+	}
+	vs := m.YMap()
+	vs.Set("plain", m.YMap().Set("targetClass", m.YStr("ex.Test")).Set(c.Op, plain))
+	vs.Set("wrapped", m.YMap().Set("targetClass", m.YStr("ex.Test")).Set(c.Op, wrapped))
+	doc.Set("validations", vs)
+	c.ProfileText = doc.Print(m.YOpts{})
+	if m.YAMLMatches(c.ProfileText, doc) != nil {
+		c.ProfileText = ""
+	}
+	g := &m.Graph{}
+	for n := range c.Vals {
+		id := g.Add(classTest)
+		for _, l := range c.Vals[n] {
+			g.Nodes[id].AddVal(m.NS+"p0", m.LV(l))
+		}
+	}
+	c.DataText = g.JSONLD(m.LDOpts{})
+	return c
+}
+
+func decideC01SameProp(c spCase) ev.Verdict {
+	if c.ProfileText == "" {
+		return ev.Verdict{Discard: true, Detail: "generated YAML does not round-trip"}
+	}
+	res := validateVia(c.Route, c.ProfileText, c.DataText)
+	if res.failed() {
+		return ev.Violation("c01-gen-atom-call-failed", "validation failed for atoms over one property: %s\n%s", trunc(res.errString(), 600), c.ProfileText)
+	}
+	rep, err := m.ParseReport(res.Report)
+	if err != nil {
+		return ev.Violation("c01-bad-report", "%v", err)
+	}
+	reported := func(shape string) map[string]bool {
+		out := map[string]bool{}
+		for _, id := range rep.FocusSet(shape) {
+			out[id] = true
+		}
+		return out
+	}
+	plain, wrapped := reported("plain"), reported("wrapped")
+	sawT, sawF := false, false
+	for n, vals := range c.Vals {
+		id := m.NodeID(n)
+		holds, judged := c.Op == "and", true
+		for _, a := range c.Atoms {
+			tv, ok := a.truth(vals, nil)
+			if !ok {
+				judged = false
+				break
+			}
+			if c.Op == "or" {
+				holds = holds || tv
+			} else {
+				holds = holds && tv
+			}
+		}
+		if !judged {
+			continue
+		}
+		if holds {
+			sawT = true
+		} else {
+			sawF = true
+		}
+		if plain[id] == holds {
+			return ev.Violation("c01-same-property-combination", "%s of %d atoms over ex.p0: values %v make the formula %v, but the node was reported=%v\n%s", c.Op, len(c.Atoms), keys(vals), holds, plain[id], c.ProfileText)
+		}
+		if wrapped[id] != plain[id] {
+			return ev.Violation("c01-same-property-combination", "the same %s with every operand wrapped in a one-member `and` reports the node with values %v differently (%v / %v)\n%s", c.Op, keys(vals), plain[id], wrapped[id], c.ProfileText)
+		}
+	}
+	return ev.Verdict{OK: true, NonTrivial: sawT && sawF, Labels: []string{"same-property:" + c.Op + ":" + c.Family}}
+}
+
+func TestC01SameProperty(t *testing.T) {
+	ev.Run(t, "C01", genC01SameProp, decideC01SameProp)
+}
